@@ -230,7 +230,7 @@ def sx_int(*args, **kw):
     if type(x).__name__ == 'SFloat64':
         # truncation toward zero of a double; the value is concretised by forks
         bv = z3.fpToSBV(z3.RTZ(), x.e, z3.BitVecSort(32))
-        return cur().concretize_int(z3.BV2Int(bv, is_signed=True), 'int(float64)', cap=8)
+        return cur().concretize_int(bv, 'int(float64)', cap=8)
     return _b.int(*args, **kw)
 
 
